@@ -202,6 +202,10 @@ func (ev *Evaluator) Eval(fn *ssa.Function, args []Val) (*Outcome, error) {
 	if len(fn.Blocks) == 0 {
 		return nil, &Undecided{fn.Pos(), "no body: " + fn.String()}
 	}
+	if len(args) != len(fn.Params) {
+		// a rule built its scenario for another signature (the function was given more or fewer parameters)
+		return nil, &Undecided{fn.Pos(), fmt.Sprintf("%s has %d parameter(s), the scenario supplies %d", fn.String(), len(fn.Params), len(args))}
+	}
 	env := map[ssa.Value]Val{}
 	for i, p := range fn.Params {
 		env[p] = args[i]
